@@ -179,6 +179,13 @@ func Catalogue() []Prog {
 		map[string]string{"c.vuego": "---\nlk_fm: fm-value\n---\n<section><h2>{{ label }}</h2><p>{{ lk_prop }} {{ lk_fm }} {{ title }}</p></section>"}, nil, false)
 	add("include-nested", F, `<template include="@D/outer.vuego" :x="n"></template>`,
 		map[string]string{"outer.vuego": `<div class="outer"><template include="@D/inner.vuego" :y="x"></template><template include="@D/inner.vuego" y="s"></template></div>`, "inner.vuego": `<span>{{ y }}/{{ x }}</span>`}, nil, false)
+	// wrapper components: the component file's root <template> is itself an include that forwards props (string, list),
+	// or carries v-html: whatever evaluating that root tag writes must not stay with the engine
+	add("include-wrapper-root", F, `<main><template include="@D/field.vuego" :label="title" :rows="items"></template><template include="@D/field.vuego" label="static {{ n }}" :rows="user.tags"></template></main>`,
+		map[string]string{"field.vuego": `<template include="@D/label.vuego" :text="label" :list="rows" note="n {{ label }}"></template>`,
+			"label.vuego": `<label :title="note">{{ text }}<i v-for="r in list">{{ r.name }}{{ r }}</i></label>`}, nil, false)
+	add("include-root-vhtml", F, `<div><template include="@D/raw.vuego" :body="html"></template><template include="@D/raw.vuego" :body="title"></template></div>`,
+		map[string]string{"raw.vuego": `<template v-html="body"></template>`}, nil, false)
 	add("include-required-ok", F, `<template include="@D/c.vuego" name="nm"></template>`,
 		map[string]string{"c.vuego": `<template :required="name"><b>{{ name }}</b></template>`}, nil, false)
 	add("slots", F, `<template include="@D/card.vuego"><template v-slot:head><h3>{{ title }}</h3></template><p>{{ user.name }} body</p><template #foot="lk_slot">{{ lk_slot.k }} foot</template></template><template include="@D/card.vuego"></template>`,
